@@ -133,7 +133,7 @@ struct ns_sock {
 };
 #define NS_MAXSOCK 64
 static struct ns_sock g_socks[NS_MAXSOCK];
-static int g_next_fd = 1000;
+static int g_next_fd = 600;
 static int g_next_eph = 40000;
 
 static coap_context_t *g_ctxs[8];
@@ -180,7 +180,7 @@ sk_find(coap_socket_t *sock) {
 }
 static struct ns_sock *
 sk_find_fd(int fd) {
-  if (fd < 1000)
+  if (fd < 600)
     return NULL;
   for (int i = 0; i < NS_MAXSOCK; i++)
     if (g_socks[i].kind != SK_FREE && g_socks[i].fd == fd)
@@ -364,7 +364,7 @@ __wrap_coap_socket_connect_udp(coap_socket_t *sock, const coap_address_t *local_
   if (local_if && local_if->addr.sa.sa_family)
     k->local = *local_if;
   else
-    ns_addr(&k->local, 100 + (k->fd - 1000), 0);
+    ns_addr(&k->local, 100 + (k->fd - 600), 0);
   if (k->local.addr.sin.sin_port == 0)
     k->local.addr.sin.sin_port = htons((uint16_t)g_next_eph++);
   coap_address_copy(local_addr, &k->local);
@@ -537,7 +537,7 @@ __wrap_coap_socket_connect_tcp1(coap_socket_t *sock, const coap_address_t *local
   if (local_if && local_if->addr.sa.sa_family)
     k->local = *local_if;
   else
-    ns_addr(&k->local, 100 + (k->fd - 1000), 0);
+    ns_addr(&k->local, 100 + (k->fd - 600), 0);
   if (k->local.addr.sin.sin_port == 0)
     k->local.addr.sin.sin_port = htons((uint16_t)g_next_eph++);
   ns_stream_t *s = stream_new(&k->local, &k->remote);
@@ -592,7 +592,7 @@ ssize_t
 recv(int fd, void *buf, size_t len, int flags) {
   struct ns_sock *k = sk_find_fd(fd);
   if (!k) {
-    if (fd >= 1000) {
+    if (fd >= 600 && fd < 1024) {
       errno = EBADF;
       return -1;
     }
@@ -623,7 +623,7 @@ ssize_t
 send(int fd, const void *buf, size_t len, int flags) {
   struct ns_sock *k = sk_find_fd(fd);
   if (!k) {
-    if (fd >= 1000) {
+    if (fd >= 600 && fd < 1024) {
       errno = EBADF;
       return -1;
     }
@@ -656,13 +656,33 @@ send(int fd, const void *buf, size_t len, int flags) {
 
 int
 select(int nfds, fd_set *r, fd_set *w, fd_set *e, struct timeval *tv) {
-  (void)nfds;
-  (void)r;
+  /* Only short polls on harness-owned stream descriptors are legitimate here (coap_ws_close waits up to
+   * 5 x 1 ms for the peer's Close).  Answer from the simulated stream; anything that could really block
+   * (no timeout, or a long one) is a harness bug and fails loudly. */
   (void)w;
   (void)e;
-  (void)tv;
-  fprintf(stderr, "VX-HARNESS: blocking-select-reached\n");
-  abort();
+  if (!tv || tv->tv_sec > 0 || tv->tv_usec > 100000) {
+    fprintf(stderr, "VX-HARNESS: blocking-select-reached\n");
+    abort();
+  }
+  int ready = 0;
+  if (r) {
+    for (int fd = 0; fd < nfds && fd < FD_SETSIZE; fd++) {
+      if (!FD_ISSET(fd, r))
+        continue;
+      struct ns_sock *k = sk_find_fd(fd);
+      int ok = 0;
+      if (k && k->kind == SK_TCP_CONN && k->stream_id >= 0) {
+        struct ns_stream_side *sd = &g_streams[k->stream_id]->side[k->stream_side];
+        ok = sd->rx_avail > 0 || (sd->peer_closed && sd->rx_len == 0);
+      }
+      if (ok)
+        ready++;
+      else
+        FD_CLR(fd, r);
+    }
+  }
+  return ready;
 }
 
 ns_stream_t *
@@ -686,9 +706,10 @@ size_t
 ns_stream_raw_read(ns_stream_t *s, int side, uint8_t *buf, size_t max) {
   struct ns_stream_side *sd = &s->side[side];
   size_t n = sd->rx_len < max ? sd->rx_len : max;
-  if (buf)
+  if (buf && n)
     memcpy(buf, sd->rx, n);
-  memmove(sd->rx, sd->rx + n, sd->rx_len - n);
+  if (sd->rx_len - n)
+    memmove(sd->rx, sd->rx + n, sd->rx_len - n);
   sd->rx_len -= n;
   sd->rx_avail = sd->rx_avail > n ? sd->rx_avail - n : 0;
   return n;
@@ -699,11 +720,21 @@ ns_stream_release(ns_stream_t *s, int side, size_t nbytes) {
   sd->rx_avail += nbytes;
   if (sd->rx_avail > sd->rx_len)
     sd->rx_avail = sd->rx_len;
-  if (sd->sock && !sd->closed) {
+  /* level-triggered readiness, as select()/epoll give it: the socket stays readable while unread bytes
+   * remain, so the I/O loop is entered again until a pass consumes nothing */
+  for (int guard = 0; guard < 10000; guard++) {
+    if (!sd->sock || sd->closed)
+      break;
     struct ns_sock *k = sk_find(sd->sock);
+    if (!k)
+      break;
+    size_t before = sd->rx_avail;
+    if (before == 0 && guard > 0)
+      break;
     sd->sock->flags |= COAP_SOCKET_CAN_READ;
-    if (k)
-      do_io_ctx(k->ctx);
+    do_io_ctx(k->ctx);
+    if (sd->rx_avail >= before)
+      break;
   }
 }
 void
@@ -887,7 +918,7 @@ ns_init(void) {
   g_clock_virtual = 1;
   g_vnow_ms = 0;
   memset(g_socks, 0, sizeof g_socks);
-  g_next_fd = 1000;
+  g_next_fd = 600;
   g_next_eph = 40000;
   g_nflight = 0;
   g_next_dgram = 0;
